@@ -131,6 +131,19 @@ func c15Setup(prm c15Params) func(c *fw.Ctx, name string) explore.Setup {
 						for _, pl := range pls {
 							pong(pl, true)
 						}
+					case "respell":
+						// only near-miss payloads are sent: other spellings of the same
+						// number, padded, prefixed, case-changed; none is a ping's own payload
+						for _, pl := range pls {
+							for _, alt := range [][]byte{
+								append([]byte("0"), pl...), append([]byte("+"), pl...), append([]byte(" "), pl...),
+								append(append([]byte(nil), pl...), ' '), append(append([]byte(nil), pl...), 0),
+								append(append([]byte(nil), pl...), '.', '0'), []byte(fmt.Sprint(4294967296 + int64(pl[0]-'0'))),
+								{},
+							} {
+								pong(alt, false)
+							}
+						}
 					case "withhold":
 						for _, pl := range pls[1:] {
 							pong(pl, true)
@@ -227,7 +240,7 @@ func c15Scenarios(tier string) []scenario {
 	}
 	for _, k := range []connCfg{{Client: false}, {Client: true}} {
 		for _, n := range ns {
-			for _, v := range []string{"inorder", "reverse", "dup", "foreign", "withhold", "early", "asap"} {
+			for _, v := range []string{"inorder", "reverse", "dup", "foreign", "respell", "withhold", "early", "asap"} {
 				for _, rd := range []string{"loop", "closeread"} {
 					if n == 2 && v == "dup" {
 						// with two pings "dup" answers the first twice and withholds the second
